@@ -12,10 +12,9 @@ for D in /verif/seeded/*/; do
   NAME=$(basename $D); echo "$NAME" | grep -Eq "$RE" || continue
   [ -n "$(git -C /repo status --porcelain)" ] && { echo "/repo not clean"; exit 2; }
   git -C /repo apply $D/patch.diff || { echo "SEED $NAME: patch does not apply"; continue; }
-  fired=""
-  for P in $PROPS; do
-    /verif/bin/gotsverif -repo /repo -prop $P -tier quick -evidence /tmp/seed_ev.json >/dev/null 2>&1 || fired="$fired $P"
-  done
+  # the twenty checks only read /repo: run them side by side
+  fired=$(for P in $PROPS; do echo $P; done | xargs -P 10 -I{} sh -c '/verif/bin/gotsverif -repo /repo -prop {} -tier quick -evidence /tmp/seed_ev_{}.json >/dev/null 2>&1 || echo {}' | sort | tr '\n' ' ')
+  rm -f /tmp/seed_ev_*.json
   git -C /repo checkout -- .
   python3 - "$D/meta.json" "$fired" <<'PY'
 import json,sys
